@@ -141,7 +141,11 @@ class B:
 
 def _pick_crash(r, scale):
     k = r.randint(0, scale)
-    return {'k': k, 'tear': copy.deepcopy(r.choice(TEARS))}
+    c = {'k': k, 'tear': copy.deepcopy(r.choice(TEARS))}
+    if r.random() < 0.3:
+        c['when'] = 'after'      # the process dies right after that operation instead of right before it
+        c['tear'] = None
+    return c
 
 
 def gen_c05(r, knobs=None):
@@ -415,7 +419,7 @@ def _mbuild(b, r):
 def gen_c07(r, knobs=None):
     """force-heavy histories: Task.force / Chain.force with every flag combination on arbitrary task sets, stores with
     results present or missing, arbitrary later request orders, other chains and processes on the same store."""
-    kn = {'n_roots': (1, 2), 'n_pipes': (1, 4), 'classes_per_pipe': (1, 4)}
+    kn = {'n_roots': (1, 3), 'n_pipes': (1, 4), 'classes_per_pipe': (1, 4), 'p_twin': 0.35}
     kn.update(knobs or {})
     world = gen.gen_world(r, kn)
     b = B(world, r)
@@ -429,7 +433,7 @@ def gen_c07(r, knobs=None):
     for pi in range(nproc):
         b.proc(hs=r.choice([0, 1]))
         root = r.randrange(len(world['roots']))
-        if not name_mode and len(world['roots']) >= 2 and r.random() < 0.15:
+        if not name_mode and len(world['roots']) >= 2 and r.random() < 0.3:
             # the chains of this process are members of a MultiChain (shared task objects under Chain.force)
             live = _mbuild(b, r)
         elif name_mode:
